@@ -28,6 +28,8 @@
 (*   exact test whenever the residuals are exact floating-point numbers    *)
 (*   (exact-breakdown family, Krylov!FPExact); Trace_LoopControl then      *)
 (*   demands exactly that outcome of every recorded evaluation (field kd). *)
+(* The `@type` comments are for Apalache (spec/Ind_LoopControl.tla proves   *)
+(* CtlInv inductively for all n, m); TLC ignores them.                     *)
 (* while_loop_winfo (cola/utils/torch_tqdm.py)                             *)
 (*   info.iterations = number of condition evaluations; one error value is *)
 (*   appended per evaluation and one after the loop, the first two dropped.*)
@@ -43,6 +45,7 @@ Cap(m, n) == LMin2(m, n)
 \* request clamped to n; the loop cap min(m, n) is the same for both
 ArnoldiBufCaps(m, n) == {m, Cap(m, n)}
 CtrInit(alg) == IF alg = "lanczos" THEN 1 ELSE 0
+\* @type: Str => { ctr: Int, done: Bool, evals: Int, bodies: Int };
 CtlInit(alg) == [ctr |-> CtrInit(alg), done |-> FALSE, evals |-> 0, bodies |-> 0]
 
 \* the loop condition; `large` is the outcome of the numeric test (any over the batch)
@@ -51,12 +54,15 @@ Cont(alg, ctr, cap, large) ==
     ELSE ctr < cap /\ (large \/ ctr <= 0)
 
 \* one condition evaluation, followed by the body iff it returned TRUE
+\* @type: ({ ctr: Int, done: Bool, evals: Int, bodies: Int }, Bool) => { ctr: Int, done: Bool, evals: Int, bodies: Int };
 CtlAdvance(st, cont) ==
     IF cont THEN [st EXCEPT !.ctr = @ + 1, !.evals = @ + 1, !.bodies = @ + 1]
     ELSE [st EXCEPT !.done = TRUE, !.evals = @ + 1]
+\* @type: (Str, { ctr: Int, done: Bool, evals: Int, bodies: Int }, Int, Bool) => { ctr: Int, done: Bool, evals: Int, bodies: Int };
 CtlStep(alg, st, cap, large) == CtlAdvance(st, Cont(alg, st.ctr, cap, large))
 
 \* observable outputs after the loop has stopped with control state st
+\* @type: (Str, Int, Int, { ctr: Int, done: Bool, evals: Int, bodies: Int }) => { q: <<Int, Int>>, t: <<Int, Int>>, offd: Int, steps: Int, iterations: Int, nerr: Int };
 Out(alg, n, m, st) ==
     LET cap == Cap(m, n) IN
     IF alg = "lanczos"
@@ -69,6 +75,7 @@ Out(alg, n, m, st) ==
           iterations |-> st.evals, nerr |-> LMax2(st.evals - 1, 0)]
 
 (* contract of the skeleton, for every reachable control state *)
+\* @type: (Str, Int, Int, { ctr: Int, done: Bool, evals: Int, bodies: Int }) => Bool;
 CtlInv(alg, n, m, st) ==
     LET cap == Cap(m, n) IN
     /\ st.bodies <= cap                                   \* never more steps than the cap
